@@ -237,7 +237,8 @@ def flp : P String := do
       -- lp_solve's own NUMFAILURE / ACCURACYERROR on an instance with coefficients below 1e-5 (the "ugly" stream) is the
       -- ill-conditioning that stream is meant to probe, not a verdict; on any other instance it is a failing input
       if numfail && tiny then return "skip ill_conditioned" else
-      let kind := if numfail then "lp_solve_numerical_failure" else "no_solution"
+      -- the lp_solve kind is used only when the recorded LP is, row by row, the generated one (a known lp_solve finding must not mask a wrong LP)
+      let kind := if numfail && v.diffs.isEmpty then "lp_solve_numerical_failure" else "no_solution"
       return (v.failIf true s!"FactoredLP {kind} status={st} lp_solve_result={rec.solveRes} flat_optimum={ratStr opt}").render
     let v := v.failIf (w.length != n - 1) s!"FactoredLP wrong_weight_count {w.length}"
     let phiW := flpMaxErr S C b addConst w
